@@ -28,9 +28,9 @@ PROPS = {
                 "ThreadSanitizer builds, and a ThreadSanitizer build in which every atomic operation is a decision point; "
                 "e2e_client_server: the same client against a real Http::Endpoint (1..3 workers; echo, sized, application-thread, chunked and file responses) in one simulated "
                 "process, 1..3 issuers x 1..16 requests (GET/POST/PUT/DELETE, query, bodies), drawn socket buffers / segment sizes / latency in the direction server -> client, "
-                "short writes (both directions), short reads and EINTR injected, endpoint shut down in mid-load in a fifth of the runs; in 30 % of the runs two endpoints behind the one client, and when only one of them is shut down every request to the other must still be fulfilled; " + NONTRIVIAL,
+                "short writes (both directions), short reads and EINTR injected, endpoint shut down in mid-load in a fifth of the runs; in 30 % of the runs two endpoints behind the one client, and when only one of them is shut down every request to the other must still be fulfilled; in 12 % of the runs without shutdown the endpoint's read time-outs are 1..2.5 s and some requests follow an idle gap longer than that (the server has answered the silence on the pooled connections with 408 and closed them); " + NONTRIVIAL,
         "probes_expected": ["kind-echo", "kind-size", "kind-async", "kind-file", "kind-stream", "server-would-block", "short-write", "shutdown-with-load", "behaviour-immediate", "behaviour-delayed", "behaviour-dribble", "behaviour-chunked", "behaviour-close-after", "behaviour-never",
-                            "behaviour-late", "connection-limit-reached", "reconnected", "request-never-sent", "other-connection-opened", "two-hosts", "second-host-down", "connection-limit-reached-on-second-host", "response-larger-than-a-receive-buffer", "one-host-shut-down-the-other-goes-on"],
+                            "behaviour-late", "connection-limit-reached", "reconnected", "request-never-sent", "other-connection-opened", "two-hosts", "second-host-down", "idle-gap-beyond-the-servers-time-out", "connection-limit-reached-on-second-host", "response-larger-than-a-receive-buffer", "one-host-shut-down-the-other-goes-on"],
         "assumptions": ["requests small enough for the socket buffer (the client's partial-send path is an unimplemented stub)",
                         "a request without time-out behind a request that is never answered is not judged"],
         "quick": {"batches": [("c15_client", "plain", 12000), ("c15_client", "tsan", 1500), ("c15_client", "tsanat", 8000), ("c15_hostile_server", "tsanat", 3000),
